@@ -675,9 +675,10 @@ func c13Compare(h c13History, impl, model string) *c13Diff {
 }
 
 // c13Signature: (operation kind that diverges, lookup kind, effect).
-//   lookup: own-var own-func used-var used-func qualified-var qualified-func (+ "-private" for q::n)
-//   effect: lost | stale | private-visible | foreign-visible | wrong-owner | inconsistent-forms |
-//           error-<class> | op-error-<class>
+//
+//	lookup: own-var own-func used-var used-func qualified-var qualified-func (+ "-private" for q::n)
+//	effect: lost | stale | private-visible | foreign-visible | wrong-owner | inconsistent-forms |
+//	        error-<class> | op-error-<class>
 func c13Signature(h c13History, d *c13Diff) string {
 	opk := "none"
 	if d.opIndex >= 0 && d.opIndex < len(h.ops) {
@@ -820,11 +821,11 @@ func (d *c13Diff) describe(h c13History) (observed, expected string) {
 // packages, current package, the use graph among the user packages and the tag counter. It is
 // used for generation decisions only, never for a verdict.
 type c13Gen struct {
-	defined [c13NPk]bool
-	cur     int
-	uses    [c13NPk][c13NPk]bool
-	tag     int
-	ops     []c13Op
+	defined         [c13NPk]bool
+	cur             int
+	uses            [c13NPk][c13NPk]bool
+	tag             int
+	ops             []c13Op
 	avoidTransitive bool
 }
 
@@ -1103,7 +1104,10 @@ func c13Random(r *lib.Rng, n int, avoid bool) []c13History {
 // (p0 may use p1), one name, operations on the current package.
 func c13Exhaustive(maxLen int, three bool, avoid bool) []c13History {
 	var hs []c13History
-	type sym struct{ kind string; a, b int }
+	type sym struct {
+		kind string
+		a, b int
+	}
 	alpha := []sym{{"I", 0, 0}, {"I", 1, 0}, {"U", 0, 1}, {"X", 0, 1}, {"Ec", 0, 0}, {"Zc", 0, 0}, {"V", 0, 0}, {"S", 0, 0}, {"F", 0, 0}, {"M", 0, 0}, {"K", 0, 0}}
 	prefix := "P0:: P1:: I0"
 	if three {
@@ -1293,14 +1297,12 @@ func runC13(c *lib.Ctx) {
 	hs = append(hs, sweep...)
 	random := c13Random(c.Rng, c.Scale(1500, 6000), avoid)
 	hs = append(hs, random...)
-	nExh := 0
-	if c.Thorough() {
-		e1 := c13Exhaustive(c13ExhLen2, false, avoid)
-		e2 := c13Exhaustive(c13ExhLen3, true, avoid)
-		nExh = len(e1) + len(e2)
-		hs = append(hs, e1...)
-		hs = append(hs, e2...)
-	}
+	// bounded-exhaustive families: short in the quick tier, up to the full bound in the thorough tier
+	e1 := c13Exhaustive(c.Scale(c13ExhLen2-1, c13ExhLen2), false, avoid)
+	e2 := c13Exhaustive(c.Scale(c13ExhLen3-2, c13ExhLen3), true, avoid)
+	nExh := len(e1) + len(e2)
+	hs = append(hs, e1...)
+	hs = append(hs, e2...)
 	for i := range hs {
 		hs[i].id = i
 	}
